@@ -142,6 +142,9 @@ def live_in(tree, pool):
         leaves = [n for n in nodes if not n.children and n.parent is not None]
         top_ids = {c.data_id for c in tree.children}
         leaves = [n for n in leaves if n.data_id not in top_ids]      # (no collision with a top-level node)
+        # ... preferably a whole branch (anything remembered per node about its position must follow for the descendants too)
+        branches = [n for n in nodes if n.children and n.parent is not None and n.data_id not in top_ids]
+        leaves = branches[:1] + leaves
         if leaves and not typed:      # (TypedNode.move_to is not implemented)
             n = leaves[0]
             par, idx = n.parent, n.get_index(**({"any_kind": True} if typed else {}))
